@@ -438,6 +438,7 @@ def _run(mod, pid, tier, seed, procs, scale, here, repo, run_tmp, t_start):
                   claims=collections.Counter(), excluded=collections.Counter(),
                   excluded_known=collections.Counter(), samples=[], failures={})
     exhaustive_info = None
+    fuzz_info = None
     try:
         # 3. finite enumerations
         jobs = mod.exhaustive_jobs(tier) if hasattr(mod, 'exhaustive_jobs') else []
@@ -497,6 +498,45 @@ def _run(mod, pid, tier, seed, procs, scale, here, repo, run_tmp, t_start):
                 else:
                     g['count'] += f['count']
 
+        # 4b. coverage-guided engine (atheris/libFuzzer over the same strategy and oracle), when budgeted
+        fz = budget.get('fuzz')
+        if fz:
+            from pbt import fuzz as _fuzz
+            if not _fuzz.available(here):
+                fuzz_info = dict(skipped='atheris is not importable (setup.sh could not install it)')
+            else:
+                nw = max(1, min(procs, fz.get('workers', 4)))
+                runs = max(100, int(fz.get('runs', 2000) * scale))
+                fprocs = _fuzz.launch(pid, tier, seed, nw, runs, fz.get('max_s', 300), here, repo, run_tmp)
+                fres, fnotes = _fuzz.collect(fprocs, fz.get('max_s', 300))
+                fuzz_info = dict(workers=nw, runs_per_worker=runs, execs=0, evaluations=0, new_units=0,
+                                 completed_workers=0, notes=fnotes[:5])
+                for r in fres:
+                    fuzz_info['execs'] += r.get('execs', 0)
+                    fuzz_info['evaluations'] += r['evaluations']
+                    fuzz_info['completed_workers'] += 1 if r.get('done') else 0
+                    try:
+                        fuzz_info['new_units'] += int(r.get('libfuzzer', {}).get('new_units_added', 0))
+                    except ValueError:
+                        pass
+                    merged['evaluations'] += r['evaluations']
+                    merged['hashes'] |= set(r['hashes'])
+                    for k in ('labels', 'claims', 'excluded', 'excluded_known'):
+                        merged[k].update(r[k])
+                    for s_ in r['samples']:
+                        if len(merged['samples']) < 6:
+                            merged['samples'].append(s_)
+                    for tag, f in r['failures'].items():
+                        g = merged['failures'].get(tag)
+                        if g is None:
+                            merged['failures'][tag] = dict(count=f['count'], first_index=-1, first_case=f['first_case'],
+                                                           first_msg=f['first_msg'], shard=None, seed=None,
+                                                           fuzz=r['outdir'])
+                        else:
+                            g['count'] += f['count']
+                for n_ in fnotes[:5]:
+                    sys.stderr.write('FUZZ-NOTE: %s\n' % n_[:400])
+
         # 5. shrink pass for unlisted failures
         tags = sorted(merged['failures'], key=lambda t: (t == 'crash', t))[:6]
         shrink_jobs = []
@@ -507,6 +547,9 @@ def _run(mod, pid, tier, seed, procs, scale, here, repo, run_tmp, t_start):
             if do_shrink and not f.get('exhaustive') and f['shard'] is not None:
                 shrink_jobs.append((tag, pool.apply_async(run_shrink, ((pid, tier, f['shard'], f['seed'],
                                                                          per[f['shard']], tag, cap, here),))))
+            elif do_shrink and f.get('fuzz'):
+                from pbt import fuzz as _fuzz
+                shrink_jobs.append((tag, pool.apply_async(_fuzz.shrink_from_db, (pid, tier, tag, here, f['fuzz'], cap))))
         shrunk = {}
         for tag, asy in shrink_jobs:
             try:
@@ -523,7 +566,8 @@ def _run(mod, pid, tier, seed, procs, scale, here, repo, run_tmp, t_start):
                 case, msg, was = f['first_case'], f['first_msg'], False
             path = save_replay(here, pid, tag, case, msg, seed, was,
                                dict(shard=f.get('shard'), index=f.get('first_index'), tier=tier,
-                                    count=f['count']))
+                                    count=f['count'], engine='atheris' if f.get('fuzz') else
+                                    ('enumeration' if f.get('exhaustive') else 'hypothesis')))
             violations.append((tag, os.path.relpath(path, here)))
             print('FAIL tag=%s count=%d: %s' % (tag, f['count'], (msg or '').splitlines()[0][:300] if msg else ''))
     finally:
@@ -552,9 +596,13 @@ def _run(mod, pid, tier, seed, procs, scale, here, repo, run_tmp, t_start):
         excluded=dict(merged['excluded']),
         excluded_known=dict(merged['excluded_known']),
         known_findings=known_lines,
-        engines=getattr(mod, 'ENGINES', ['hypothesis']),
+        engines=list(getattr(mod, 'ENGINES', ['hypothesis'])) + (
+            ['atheris/libFuzzer driving the same Hypothesis strategy and oracle (fuzz_one_input)']
+            if fuzz_info and not fuzz_info.get('skipped') else []),
         repo_head=head, repo_dirty=dirty,
     )
+    if fuzz_info is not None:
+        coverage['fuzz'] = fuzz_info
     if hasattr(mod, 'evidence_extra'):
         try:
             coverage.update(mod.evidence_extra(tier))
